@@ -73,15 +73,18 @@ type c12CaseSpec struct {
 	// BlankIDs: the last two targets of the pool have lost their executor (executor id blank) or their agent
 	// (both ids blank), as HandleExecutorFailed / HandleAgentFailed leave a task: a MESSAGE for them is
 	// refused by the sender, nothing can come back, and the result must say so for exactly these targets
-	BlankIDs bool         `json:"blank_ids,omitempty"`
-	Idx      int64        `json:"idx"`
-	Queues   int          `json:"queues"`
-	Pool     int          `json:"pool"`
-	Cmds     []c12CmdSpec `json:"cmds"`
+	BlankIDs bool `json:"blank_ids,omitempty"`
+	// Pipelined: one client per queue enqueues all its commands back to back and only then starts to read the
+	// answers (the callbacks of the first commands have no reader while the later ones are being enqueued)
+	Pipelined bool         `json:"pipelined,omitempty"`
+	Idx       int64        `json:"idx"`
+	Queues    int          `json:"queues"`
+	Pool      int          `json:"pool"`
+	Cmds      []c12CmdSpec `json:"cmds"`
 }
 
 func c12GenCase(r *rand.Rand, idx int64) *c12CaseSpec {
-	cs := &c12CaseSpec{Idx: idx, Pool: c12PoolSize, BlankIDs: idx%4 == 0}
+	cs := &c12CaseSpec{Idx: idx, Pool: c12PoolSize, BlankIDs: idx%4 == 0, Pipelined: idx%5 == 2}
 	switch x := r.Intn(10); {
 	case x < 4:
 		cs.Queues = 1
@@ -593,13 +596,19 @@ func c12IsNilPtr(r cc.MesosCommandResponse) bool {
 }
 
 func (cr *c12CaseRun) enqueue(cm *c12Cmd) {
+	cr.enqueueThen(cm, true)()
+}
+
+// enqueueThen enqueues the command; the collector of its callback is started at once (collectNow) or by the
+// function returned (a pipelined client reads its answers only after it has enqueued everything).
+func (cr *c12CaseRun) enqueueThen(cm *c12Cmd, collectNow bool) (startCollector func()) {
 	var cb chan cc.MesosCommandResponse
 	if cm.spec.Buffered {
 		cb = make(chan cc.MesosCommandResponse, 1)
 	} else {
 		cb = make(chan cc.MesosCommandResponse) // what task.Manager uses
 	}
-	go func() { // collector: counts every value ever delivered for this command
+	collector := func() { // collector: counts every value ever delivered for this command
 		for {
 			select {
 			case r := <-cb:
@@ -611,7 +620,13 @@ func (cr *c12CaseRun) enqueue(cm *c12Cmd) {
 				return
 			}
 		}
-	}()
+	}
+	startCollector = func() {}
+	if collectNow {
+		go collector()
+	} else {
+		startCollector = func() { go collector() }
+	}
 	cr.mu.Lock()
 	cm.enqSeq = vlib.Seq()
 	cr.mu.Unlock()
@@ -620,6 +635,7 @@ func (cr *c12CaseRun) enqueue(cm *c12Cmd) {
 		cm.enqErr = err
 		cr.mu.Unlock()
 	}
+	return startCollector
 }
 
 // await blocks until every command in cmds was delivered; false if one is still
@@ -809,13 +825,34 @@ func c12RunCase(spec *c12CaseSpec, tag string) *c12CaseRun {
 	for j := range spec.Cmds {
 		work = append(work, cr.makeCmd(&spec.Cmds[j], 0))
 	}
-	for _, cm := range work {
-		go func(cm *c12Cmd) {
-			if cm.spec.StaggerUs > 0 {
-				time.Sleep(time.Duration(cm.spec.StaggerUs) * time.Microsecond)
-			}
-			cr.enqueue(cm)
-		}(cm)
+	if spec.Pipelined {
+		byQueue := map[int][]*c12Cmd{}
+		for _, cm := range work {
+			byQueue[cm.spec.Queue] = append(byQueue[cm.spec.Queue], cm)
+		}
+		for _, cms := range byQueue {
+			go func(cms []*c12Cmd) {
+				var starts []func()
+				for _, cm := range cms {
+					if cm.spec.StaggerUs > 0 {
+						time.Sleep(time.Duration(cm.spec.StaggerUs) * time.Microsecond)
+					}
+					starts = append(starts, cr.enqueueThen(cm, false))
+				}
+				for _, f := range starts {
+					f()
+				}
+			}(cms)
+		}
+	} else {
+		for _, cm := range work {
+			go func(cm *c12Cmd) {
+				if cm.spec.StaggerUs > 0 {
+					time.Sleep(time.Duration(cm.spec.StaggerUs) * time.Microsecond)
+				}
+				cr.enqueue(cm)
+			}(cm)
+		}
 	}
 	if !cr.await(work) {
 		cr.awaitReplies()
@@ -991,6 +1028,9 @@ func c12Judge(c *vlib.Ctx, cr *c12CaseRun, caseID int64, boundOnly bool) (boundE
 		n := len(cm.ts)
 		if !boundOnly && cm.probe == 0 {
 			c.Count("commands", 1)
+			if cr.spec.Pipelined {
+				c.Count("commands_of_pipelined_clients", 1)
+			}
 			c.Count("targets", int64(n))
 			if n == 0 {
 				c.Count("commands_zero_targets", 1)
